@@ -7,4 +7,9 @@ require (
 	pgregory.net/rapid v1.3.0
 )
 
+require (
+	github.com/golang/snappy v0.0.3 // indirect
+	github.com/pierrec/lz4/v4 v4.0.3 // indirect
+)
+
 replace github.com/datastax/go-cassandra-native-protocol => /repo
